@@ -279,6 +279,41 @@ def re_run(residual_map="lmap", kl_map="vmap", jit=True, as_digest=True):
     return flat.tolist()
 
 
+def re_run_long(cg_kind="static", residual_map="lmap", jit=True):
+    """Linear sampling on a 24-dimensional model whose metric has 24 well-separated eigenvalues: the sampling CG
+    needs more than N_RESET = 20 iterations, so the periodic exact-residual branch of both CG implementations
+    (Python loop `cg`, compiled `static_cg`) is exercised.  Only the CG implementation / map / jit vary."""
+    import logging
+    logging.getLogger("nifty.re.logger").setLevel(logging.ERROR)
+    import jax
+    import jax.numpy as jnp
+    import nifty.re as jft
+    n = 24
+    w = jnp.asarray(np.geomspace(0.3, 3., n))
+    data = jnp.asarray(np.cos(np.arange(n) * 1.3))
+
+    def fwd(x):
+        return w * x["a"]
+    lh = jft.Gaussian(data, noise_std_inv=lambda t: 2.0 * t).amend(fwd)
+    pos = jft.Vector({"a": jnp.asarray(0.1 * np.sin(np.arange(n) * 0.7))})
+    cgf = jft.conjugate_gradient.static_cg if cg_kind == "static" else jft.conjugate_gradient.cg
+    its = []
+
+    def counting_cg(*a, **k):
+        res = cgf(*a, **k)
+        return res
+    samples, state = jft.optimize_kl(
+        lh, pos, key=jax.random.PRNGKey(5), n_total_iterations=1, n_samples=2,
+        sample_mode="linear_sample", kl_map=jax.vmap,
+        residual_map=residual_map if residual_map != "vmap" else "vmap", jit=jit,
+        draw_linear_kwargs=dict(cg=cgf, cg_name=None, cg_kwargs=dict(absdelta=1e-30, miniter=38, maxiter=38)),
+        kl_kwargs=dict(minimize=jft.optimize._static_newton_cg,
+                       minimize_kwargs=dict(name=None, xtol=1e-8, cg_kwargs=dict(name=None), maxiter=3)),
+    )
+    leaves = jax.tree_util.tree_leaves(samples._samples)
+    return np.concatenate([np.asarray(l, dtype=np.float64).ravel() for l in leaves]).tolist()
+
+
 def _subprocs(fn_call, hashseeds):
     """Run the call in fresh interpreters (concurrently), one per hash seed (None = random)."""
     procs = []
@@ -315,6 +350,10 @@ def cases(tier, seed):
         for km in maps:
             for jit in (True, False):
                 out.append(dict(kind="reconf", residual_map=rm, kl_map=km, jit=jit))
+    # long sampling CG (> N_RESET iterations): Python-loop cg (eager maps only) vs compiled static_cg
+    for cgk, rm, jit in (("static", "vmap", True), ("static", "lmap", True), ("static", "smap", True),
+                         ("static", "lmap", False), ("python", "lmap", False), ("python", "lmap", True)):
+        out.append(dict(kind="reconf-long", cg=cgk, residual_map=rm, jit=jit))
     return out
 
 
@@ -353,6 +392,23 @@ def run(case):
                        finding_key="reconf-differs|%s|%s|%s" % (case["residual_map"], case["kl_map"], case["jit"]))
         trivial = (case["residual_map"], case["kl_map"], case["jit"]) == ("vmap", "vmap", True)
         return ok(nontrivial=not trivial, outcome="reconf-agree", detail=dict(rel_dev=err))
+    if case["kind"] == "reconf-long":
+        if "long" not in _BASE:
+            _BASE["long"] = np.array(re_run_long("static", "vmap", True))
+        try:
+            got = np.array(re_run_long(case["cg"], case["residual_map"], case["jit"]))
+        except Exception as e:
+            return bad("JAX VI run (long CG) fails for configuration %s: %r" % (case, e),
+                       finding_key="reconf-long-raises|%s|%s|%s" % (case["cg"], case["residual_map"], case["jit"]))
+        base = _BASE["long"]
+        err = float(np.abs(got - base).max() / max(1., np.abs(base).max()))
+        # same Krylov iteration in both implementations: agreement to round-off amplified by the condition number
+        if not (got.shape == base.shape and err <= 1e-9):
+            return bad("JAX VI samples depend on the execution strategy %s when the sampling CG runs more than "
+                       "N_RESET iterations: rel. deviation %.3g" % (case, err),
+                       finding_key="reconf-long-differs|%s|%s|%s" % (case["cg"], case["residual_map"], case["jit"]))
+        trivial = (case["cg"], case["residual_map"], case["jit"]) == ("static", "vmap", True)
+        return ok(nontrivial=not trivial, outcome="reconf-long-agree", detail=dict(rel_dev=err))
     raise ValueError(case)
 
 
